@@ -1930,7 +1930,7 @@ pub fn f_recreate(seed: u64) -> Plan {
 }
 
 // ------------------------------------------------------------------------------------------------
-// F-conn: one client connection. Pull, Acknowledge and GetSubscription travel over one real HTTP/2
+// F-conn: one client connection. Pull, Acknowledge, GetSubscription and Publish travel over one real HTTP/2
 // connection (hyper + h2 on an in-memory pipe) to the real tonic transport server (plan tag "conn"):
 // 8-90 Pulls are parked on the connection, then ordinary and malformed requests are sent on the
 // same connection; they must be answered at once, and a publish must still reach the parked Pulls.
@@ -1967,6 +1967,7 @@ pub fn f_conn(seed: u64) -> Plan {
             0 | 1 => Op::GetSub { sub: other.clone() },
             2 => Op::GetSub { sub: rng.pick(&["projects/proj-k/subscriptions/", "nonsense", "projects//subscriptions/x", "projects/proj-k/topics/topic-0"]).to_string() },
             3 => Op::Ack { sub: other.clone(), sel: Sel { mine: false, pick: Pick::None, extra: vec![rng.pick(&["this is not an ack id", "", "1:2:3", "-1"]).to_string()], ..Sel::none() } },
+            4 if rng.chance(500) => Op::Publish { topic: topic.clone(), msgs: msgs(&mut rng, 1, false) },
             _ => Op::Pull { sub: other.clone(), max: 10, immediate: true },
         };
         scripts.push(vec![Step::after(rng.below(3) * rng.below(1_000), op)]);
